@@ -32,7 +32,7 @@ CHECK_DEADLOCK FALSE
 """
 
 
-def make_results(records, front1=None):
+def make_results(records, front1=None, via_store=None):
     """a real Problem whose individuals are recorded by the harness (as an algorithm would), and its Results object"""
     from artap.individual import Individual
     from artap.results import Results
@@ -50,6 +50,22 @@ def make_results(records, front1=None):
         ind.features['front_number'] = 1 if (front1 and r["k"] in front1) else 2
         problem.individuals.append(ind)
         inds.append(ind)
+    if via_store:
+        # the same queries asked of a read-mode view of the stored run (C10 o C17): what was recorded, stored and read back must answer
+        # every query exactly as the live problem would
+        from artap.datastore import SqliteDataStore
+        from artap.problem import ProblemViewDataStore
+        store = SqliteDataStore(problem, database_name=via_store, mode="rewrite")
+        problem.data_store = store
+        store.sync_all()
+        store.destroy()
+        view = ProblemViewDataStore(via_store)
+        byid = {i.id: k for k, i in enumerate(inds)}
+        vinds = [None] * len(inds)
+        for v in view.individuals:
+            if v.id in byid:
+                vinds[byid[v.id]] = v
+        return view, Results(view), vinds
     return problem, Results(problem), inds
 
 
@@ -98,7 +114,19 @@ class Queries(Part):
         rng = pyrandom.Random(case["cseed"])
         recs = case["recs"]
         front1 = [r["k"] for r in recs if rng.random() < 0.5]
-        problem, res, inds = make_results(recs, front1)
+        db = None
+        if case["cseed"] % 4 == 0:
+            import os
+            db = os.path.join(ctx.scratch, "c17-%d-%d.sqlite" % (os.getpid(), case["cseed"]))
+        try:
+            problem, res, inds = make_results(recs, front1, via_store=db)
+        finally:
+            if db:
+                for ext in ("", "-journal", "-wal", "-shm"):
+                    try:
+                        os.remove(db + ext)
+                    except OSError:
+                        pass
         key = {id(i): k + 1 for k, i in enumerate(inds)}
         trace = [{"ev": "record", "k": r["k"], "tag": r["tag"], "vec": r["vec"], "costs": r["costs"]} for r in recs]
         tags = sorted({r["tag"] for r in recs})
